@@ -149,6 +149,11 @@ def parseOp (ws : List String) : Option (Nat × Nat × Op) :=
           match nats? [i, a] with
           | some [i, a] => if i < 3 then some (.foreign 1 i a) else none
           | _ => none
+        -- direct `Swap` naming offer / ask assets `k / 3`, `k % 3` with nothing attached
+        | "sdirect", [k, a] =>
+          match nats? [k, a] with
+          | some [k, a] => if k < 9 ∧ a ≠ 0 then some (.foreign 3 k a) else none
+          | _ => none
         | "sfake", [k, a] =>
           match nats? [k, a] with
           | some [k, a] => if k < 3 then some (.foreign 2 k a) else none
